@@ -7,12 +7,14 @@ package props
 // unclaimed. rapid state machines over the real session in virtual time.
 
 import (
+	"encoding/binary"
 	"errors"
 	"fmt"
 	"io"
 	"net"
 	"testing"
 	"time"
+	"verif/harness/wire"
 
 	kcp "github.com/xtaci/kcp-go/v5"
 	"pgregory.net/rapid"
@@ -58,6 +60,7 @@ type c13 struct {
 	excluded                                                               int
 	dropYX, dropXY                                                         int // datagrams the network will drop next, per direction
 	lossy                                                                  int
+	garbleYX, garbled                                                      int
 }
 
 const c13KeyOneWaiter = "C13:deadline-change-wakes-only-one-of-several-blocked-callers"
@@ -425,6 +428,16 @@ func newC13(rt *rapid.T) *c13 {
 	m.s.AfterEvent = m.invariant
 	xa, ya := addrX.String(), addrY.String()
 	m.s.OnSent = func(d *sim.Sent, from, to string, f *sim.Fate) error {
+		if from == ya && to == xa && m.garbleYX > 0 && len(d.Data) >= 24 && (fec[0] == 0 || binary.LittleEndian.Uint16(d.Data[4:]) == 0xf1) {
+			// the datagram arrives with something behind its last segment that the
+			// core rejects (a segment header with an unknown command): what stands
+			// in front of it has been applied all the same, and whoever waits for
+			// it must be woken
+			m.garbleYX--
+			tail := wire.Segment{Conv: 77, Cmd: 0x70, Wnd: 32}.Append(nil)
+			d.Data = append(append([]byte(nil), d.Data...), tail...)
+			m.garbled++
+		}
 		if from == ya && to == xa && m.dropYX > 0 {
 			m.dropYX--
 			*f = sim.Fate{}
@@ -491,6 +504,10 @@ func TestC13Session(t *testing.T) {
 				"advance2":     func(t *rapid.T) { m.advance(t) },
 				"close":        wrap(m.closeX),
 				"socketError":  wrap(m.socketError),
+				"garbleTail": wrap(func(t *rapid.T) {
+					m.garbleYX = rapid.IntRange(1, 3).Draw(t, "n")
+					m.log("the next %d datagram(s) Y->X arrive with a rejected tail behind their segments", m.garbleYX)
+				}),
 				"listenerClose": wrap(func(t *rapid.T) {
 					if m.L == nil || m.listenerClosed {
 						t.Skip("no listener to close")
@@ -528,6 +545,9 @@ func TestC13Session(t *testing.T) {
 		}
 		if m.timeouts > 0 {
 			cl = append(cl, "timeout_returned")
+		}
+		if m.garbled > 0 {
+			cl = append(cl, "datagram_with_a_rejected_tail")
 		}
 		if m.L != nil {
 			cl = append(cl, "session_handed_out_by_a_listener")
